@@ -133,12 +133,17 @@ func main() {
 			}
 			verbose := false
 			sweep := false
+			frames := false
 			for _, a := range os.Args[3:] {
 				if a == "-v" {
 					verbose = true
 				}
 				if a == "--sweep" {
 					sweep = true
+				}
+				if a == "--frames" {
+					sweep = true
+					frames = true
 				}
 			}
 			var g *gen
@@ -159,7 +164,18 @@ func main() {
 						}
 					}
 				}
-				g = e.verifyWith(fn, ctr, &genOptions{safety: true}, func(g *gen) { g.astValid = true; g.nilArgs = true; g.options.safety = true; g.ifaceCtrs = ics })
+				if frames {
+					ctr = e.sweepFrameContract(fn, "C05")
+				}
+				g = e.verifyWith(fn, ctr, &genOptions{safety: true}, func(g *gen) {
+					g.astValid = true
+					g.nilArgs = true
+					g.options.safety = true
+					g.ifaceCtrs = ics
+					if frames {
+						g.sweepFrames = "C05"
+					}
+				})
 			} else {
 				g = e.verify(fn, e.ctrs[funcKey(fn)], nil)
 			}
